@@ -16,7 +16,7 @@ if HERE not in sys.path:
     sys.path.insert(0, HERE)
 
 SPEC_MODULES = ['spec.calendar', 'spec.strings', 'spec.css_sem']
-CONTRACT_MODULES = ['contracts.inputs', 'contracts.strings', 'contracts.nav', 'contracts.match']
+CONTRACT_MODULES = ['contracts.inputs', 'contracts.strings', 'contracts.nav', 'contracts.match', 'contracts.lemmas']
 VOCAB_MODULES = ['pyvc.rx_rules', 'pyvc.prims_sym', 'pyvc.tree']
 
 
@@ -40,6 +40,8 @@ def verify_function(world, qual, timeout_ms=5000, cover=True, mutate=None, want_
     """Generate and discharge all VCs of one function. Returns a JSON-able report."""
     t0 = time.time()
     rep = dict(function=qual, status='ok', obligations=[], covers=[])
+    if qual.startswith('lemma.'):
+        return verify_lemma(world, qual, timeout_ms)
     try:
         info = extract.find_function(qual, REPO)
     except KeyError as ex:
@@ -101,5 +103,37 @@ def verify_function(world, qual, timeout_ms=5000, cover=True, mutate=None, want_
         for line, what, pc in eng.covers:
             r = solve.cover(world, pc)
             rep['covers'].append(dict(line=line, what=what, result=r))
+    rep['time'] = round(time.time() - t0, 3)
+    return rep
+
+
+def verify_lemma(world, qual, timeout_ms=5000):
+    """A lemma is a contract on an empty body: requires ==> ensures, over the spec vocabulary only."""
+    import ast as _ast
+    t0 = time.time()
+    c = world.contracts[qual]
+    src = 'def lemma(' + ', '.join(c.params) + '):\n    pass\n'
+    fnode = _ast.parse(src).body[0]
+    world.strmode = getattr(c, 'strmode', None) or 'str'
+    reset_fresh()
+    import spec.css_sem as _ns_mod
+    eng = Engine(world, c, fnode, vars(_ns_mod))
+    rep = dict(function=qual, status='ok', obligations=[], covers=[], file='(lemma over the spec)', lines=None, ast_hash=None)
+    try:
+        obs = eng.run()
+    except Unsupported as ex:
+        rep.update(status='out-of-reach', error=str(ex))
+        return rep
+    except Exception as ex:
+        rep.update(status='engine-error', error=f'{type(ex).__name__}: {ex}', trace=traceback.format_exc())
+        return rep
+    rep['n_generated'] = len(obs)
+    for ob in obs:
+        ob.kind = 'lemma'
+        r = solve.check(world, ob, timeout_ms=timeout_ms, depth=c.unfold)
+        rep['obligations'].append(dict(id=ob.id, kind='lemma', desc=ob.desc, line=0, result=r['result'], backend=r['backend'],
+                                       time=r['time'], model=r['model']))
+    for line, what, pc in eng.covers:
+        rep['covers'].append(dict(line=0, what=what, result=solve.cover(world, pc)))
     rep['time'] = round(time.time() - t0, 3)
     return rep
